@@ -507,11 +507,6 @@ func verifSpecCL(lowered string) primitive.ConsistencyLevel {
 // ("idem.text", whose soundness is C06); of a prepared id, a function of the id during one
 // classification ("idem.id": the prepared-metadata table is treated as stable while one request is
 // being classified).
-//@ func parser.IsQueryIdempotent [C04, C06]
-//@   trusted
-//@   ensures idempotent == (ufBool("idem.text", query) && err == nil)
-//@   modifies nothing
-
 //@ func proxy.Proxy.isIdempotent [C04]
 //@   trusted
 //@   requires p != nil
